@@ -597,7 +597,11 @@ func parseValue(p *cfgPrimitive, opts *options, str string, parseCfg parse.Confi
 		return newString(p.ctx, p.meta(), v), nil
 	}
 
+	// the parsed elements come from the same source as the value they are parsed from
+	meta := opts.meta
+	opts.meta = p.meta()
 	sub, err := normalize(opts, ifc)
+	opts.meta = meta
 	if err != nil {
 		return nil, err
 	}
